@@ -921,9 +921,15 @@ func (g *Gen) inlineCall(st *State, fn *ssa.Function, args []Val, binds []Val, r
 			have[sg] = true
 		}
 		moved := false
+		names := func(sig string) string { // the nesting depth differs between the function and the helper
+			if i := strings.Index(sig, ":"); i >= 0 {
+				return sig[i+1:]
+			}
+			return sig
+		}
 		for _, hs := range g.loopSigs {
 			for _, bs := range base {
-				if bs == hs && !have[bs] {
+				if names(bs) == names(hs) && !have[bs] {
 					moved = true
 				}
 			}
